@@ -139,6 +139,17 @@ Proof.
   destruct r0 as [|[|[|[|r0]]]]; destruct t as [|t]; simpl; repeat constructor.
 Qed.
 
+(* decode functions that follow links with the plain Decode - even in a cycle F <-> G - are covered with a
+   constant rank: a plain Decode never waits, only the relation between exclusive decodes matters *)
+Definition body_mutual (e : ref) (t : ty) : list op :=
+  match e, t with 1, 0 => [ODecode false 2 0] | 2, 0 => [ODecode false 1 0] | _, _ => [] end.
+
+Example mutual_plain_decode_is_ranked : ranked nonext body_mutual (fun _ _ => 0).
+Proof.
+  intros r0 e t H. apply ce_nonext in H; subst e.
+  destruct r0 as [|[|[|r0]]]; destruct t as [|t]; simpl; repeat constructor.
+Qed.
+
 Example cyclic_has_no_rank : ~ exists rk, ranked nonext body_nosink rk.
 Proof.
   intros [rk H].
